@@ -18,8 +18,9 @@ Lemma gen_is_std : gen_cfg = std_cfg.
 Proof. reflexivity. Qed.
 
 (* the JSON batch decoder copies each event's time string out of the pooled parser's buffer
-   (a zero-copy alias would let a later request overwrite it before it is converted) *)
-Lemma gen_time_string_copied : batch_time_string_copied = true.
+   (a zero-copy alias would let a later request overwrite it before it is converted): the time is
+   assigned through a string(...) conversion and the decoder does not use package unsafe *)
+Lemma gen_time_string_copied : batch_time_string_copied && negb batch_decoder_uses_unsafe = true.
 Proof. reflexivity. Qed.
 
 (* Integer Unix epoch in the event-time header or a batch element's time field: ten digits of
